@@ -14,7 +14,7 @@
      4. size_hint brackets the number of items still to come (upstream hints truthful).
    Upstream scripts may contain End in the middle (a source that resumes after reporting
    the end), so clause 3 is a theorem about the combinator, not an assumption. *)
-From HV Require Import Pull.Model Pull.PCore Pull.POne Pull.PTwo Pull.PSpec Pull.PCompose Pull.Corr Pull.PSound Pull.PHolds Pull.ModelX Pull.PX.
+From HV Require Import Pull.Model Pull.PCore Pull.POne Pull.PTwo Pull.PSpec Pull.PCompose Pull.Corr Pull.PSound Pull.PHolds Pull.ModelX Pull.PX Pull.CorrX Pull.PX2 Pull.CorrP Pull.PPipe.
 Open Scope N_scope.
 
 Theorem C11_map : forall (A B : Type) (uh : script A -> hintT), truthful uh -> forall f : A -> B,
@@ -305,6 +305,22 @@ Theorem C11_send : forall wh uh n s p s', PX.send_run n wh uh s = Some (p, s') -
        s_script s' = after_end (s_script s).
 Proof. exact @send_run_spec. Qed.
 Print Assumptions C11_send.
+
+(* send_push / send_sink toward the downstream: start_send only directly after a Done
+   poll_ready, nothing but finalize once finalize has been called (proto_ok, Pull/CorrX.v) *)
+Theorem C11_send_protocol : forall wh uh n l rd fn p s',
+  PX.send_run n wh uh (SendS false false l (PushS rd fn [])) = Some (p, s') ->
+  proto_ok false false (p_log (s_push s')) = true.
+Proof. exact send_protocol. Qed.
+Print Assumptions C11_send_protocol.
+
+(* the composed model the check runs for pipelines ([prun], Pull/CorrP.v), depth 2: for every
+   sufficient horizon H the trace emits stage_ref g2 (stage_ref g1 items) before its first Ended *)
+Theorem C11_pipeline_model : forall g1 g2 (a : srcN), exists H0, forall H, (H0 <= H)%nat ->
+  exists n0, forall n, (n0 <= n)%nat ->
+    tr_items_until (prun (PCase H [g1] g2 a) n) = pref (PCase H [g1] g2 a).
+Proof. exact pipe2_items. Qed.
+Print Assumptions C11_pipeline_model.
 
 (* non-vacuity: concrete scripts with Pend between the two sides of a zip, inside a flat_map's
    inner iterator, and a non-fused source under Fuse *)
